@@ -2376,23 +2376,25 @@ func (c *codegen) convertBuiltin(expr *ast.CallExpr) {
 			emit.Instruction(c.prog.BinWriter, opcode.JMPIFNOT, []byte{2 + 2})
 			emit.Opcodes(c.prog.BinWriter, opcode.DROP, opcode.NEWARRAY0)
 			if expr.Ellipsis.IsValid() {
-				ast.Walk(c, expr.Args[1])                    // x y
-				emit.Opcodes(c.prog.BinWriter, opcode.PUSH0) // x y cnt=0
+				// The length of y is taken before the first element is appended:
+				// x and y are the same array in append(s, s...).
+				ast.Walk(c, expr.Args[1])                               // x y
+				emit.Opcodes(c.prog.BinWriter, opcode.DUP, opcode.SIZE) // x y len(y)
+				emit.Opcodes(c.prog.BinWriter, opcode.PUSH0)            // x y len(y) cnt=0
 				start := c.newLabel()
 				c.setLabel(start)
-				emit.Opcodes(c.prog.BinWriter, opcode.PUSH2, opcode.PICK) // x y cnt x
-				emit.Opcodes(c.prog.BinWriter, opcode.PUSH2, opcode.PICK) // x y cnt x y
-				emit.Opcodes(c.prog.BinWriter, opcode.DUP, opcode.SIZE)   // x y cnt x y len(y)
-				emit.Opcodes(c.prog.BinWriter, opcode.PUSH3, opcode.PICK) // x y cnt x y len(y) cnt
+				emit.Opcodes(c.prog.BinWriter, opcode.OVER, opcode.OVER) // x y len(y) cnt len(y) cnt
 				after := c.newLabel()
-				emit.Jmp(c.prog.BinWriter, opcode.JMPEQL, after)          // x y cnt x y
-				emit.Opcodes(c.prog.BinWriter, opcode.PUSH2, opcode.PICK, // x y cnt x y cnt
-					opcode.PICKITEM, // x y cnt x y[cnt]
-					opcode.APPEND,   // x=append(x, y[cnt]) y cnt
-					opcode.INC)      // x y cnt+1
+				emit.Jmp(c.prog.BinWriter, opcode.JMPEQL, after)          // x y len(y) cnt
+				emit.Opcodes(c.prog.BinWriter, opcode.PUSH3, opcode.PICK) // x y len(y) cnt x
+				emit.Opcodes(c.prog.BinWriter, opcode.PUSH3, opcode.PICK) // x y len(y) cnt x y
+				emit.Opcodes(c.prog.BinWriter, opcode.PUSH2, opcode.PICK, // x y len(y) cnt x y cnt
+					opcode.PICKITEM, // x y len(y) cnt x y[cnt]
+					opcode.APPEND,   // x=append(x, y[cnt]) y len(y) cnt
+					opcode.INC)      // x y len(y) cnt+1
 				emit.Jmp(c.prog.BinWriter, opcode.JMPL, start)
 				c.setLabel(after)
-				for range 4 { // leave x on stack
+				for range 3 { // leave x on stack
 					emit.Opcodes(c.prog.BinWriter, opcode.DROP)
 				}
 			} else if elems := expr.Args[1:]; len(elems) == 1 {
